@@ -87,6 +87,8 @@ func statusName(s optimize.Status) string {
 		return "hlimit"
 	case optimize.IterationLimit:
 		return "ilimit"
+	case optimize.RuntimeLimit:
+		return "rlimit"
 	case optimize.MethodConverge:
 		return "mconv"
 	case optimize.Failure:
@@ -161,6 +163,16 @@ type scenario struct {
 	Prob string          // "" / "P1": the planted quadratic; "P2": the narrow valley
 	Obj  int             // identity of the Method value
 	Seq  int             // 1 + number of earlier Minimize calls made with it
+
+	// defaults.go: what Minimize does around the method
+	DefM    bool    // Minimize is called with method == nil (no Method proxy: the method's log is missing)
+	IV      int     // Settings.InitValues: bit 0 F, bit 1 Gradient, bit 2 Hessian are handed in (0: nil)
+	Abort   string  // "" | "recinit" (Recorder.Init fails) | "status0" (Problem.Status fails when first asked) | "recfirst" (the InitIteration Record fails) | "uses" (Method.Uses rejects the Problem)
+	GThr    float64 // Settings.GradientThreshold
+	DropG   bool    // the Problem offers no Grad although NeedGrad (Abort "uses")
+	DropH   bool    // the Problem offers no Hess although NeedHess (Abort "uses")
+	KeepAll bool    // the Problem offers Grad and Hess whatever the method needs
+	RL      bool    // Settings.Runtime = 1ns: elapsed at every major iteration
 }
 
 // convAt is a Converger that reports convergence at a chosen call.
@@ -177,13 +189,31 @@ func (c *convAt) Converged(*optimize.Location) optimize.Status {
 
 type recorder struct {
 	n, errAt int
+	initErr  bool
+	failed   string // "none" | "recinit" | "init" | "mid" | "post": the call that returned the error
 }
 
-func (r *recorder) Init() error { return nil }
-func (r *recorder) Record(*optimize.Location, optimize.Operation, *optimize.Stats) error {
+var errRecorder = errors.New("recorder: injected failure")
+
+func (r *recorder) Init() error {
+	if r.initErr {
+		r.failed = "recinit"
+		return errRecorder
+	}
+	return nil
+}
+func (r *recorder) Record(_ *optimize.Location, op optimize.Operation, _ *optimize.Stats) error {
 	r.n++
 	if r.errAt > 0 && r.n == r.errAt {
-		return errors.New("recorder: injected failure")
+		switch op {
+		case optimize.InitIteration:
+			r.failed = "init"
+		case optimize.PostIteration:
+			r.failed = "post"
+		default:
+			r.failed = "mid"
+		}
+		return errRecorder
 	}
 	return nil
 }
@@ -199,6 +229,12 @@ type runRec struct {
 	GL     int                `json:"gl"`
 	HL     int                `json:"hl"`
 	IL     int                `json:"il"`
+	DefM   int                `json:"defm"`  // 1: Minimize chose the method (method == nil), the logs MO / MR are missing
+	HasG   int                `json:"hasg"`  // the Problem offers Grad
+	HasH   int                `json:"hash"`  // the Problem offers Hess
+	IV     int                `json:"iv"`    // InitValues handed in (bit 0 F, bit 1 gradient, bit 2 Hessian)
+	Abort  string             `json:"abort"` // "none" or the reason why Minimize has to refuse the call
+	RL     int                `json:"rl"`    // 1: Settings.Runtime is one nanosecond
 	Logs   map[string][]outEv `json:"logs"`
 	Result map[string]any     `json:"result"`
 }
@@ -311,6 +347,9 @@ func problem(kind string, dim int, calls *callCounts, yield func(), obs observer
 	if kind == "P2" {
 		return valley(dim, calls, yield, obs), []float64{1, 0.001, 0.5, -0.25, 2}[:dim]
 	}
+	if strings.HasPrefix(kind, "X:") {
+		return hostile(kind[2:], dim, calls, yield, obs)
+	}
 	p, _ := quadratic(dim, calls, yield, obs)
 	return p, []float64{3, -2, 1.5, -0.5, 2}[:dim]
 }
@@ -422,37 +461,79 @@ func runScenario(sc scenario, seed int64, sum *core.Summary) *runRec {
 			smu.Unlock()
 		}})
 	pure, _ := problem(sc.Prob, sc.Dim, new(callCounts), func() {}, observer{func([]float64) {}, func(_, _ []float64) {}})
-	if !sc.NeedGrad {
+	if !sc.NeedGrad && !sc.KeepAll || sc.DropG {
 		p.Grad = nil
 	}
-	if !sc.NeedHess {
+	if !sc.NeedHess && !sc.KeepAll || sc.DropH {
 		p.Hess = nil
 	}
-	if sc.StatusAt > 0 {
+	var statusErr = errors.New("problem status: injected failure")
+	if sc.StatusAt > 0 || sc.Abort == "status0" {
 		var n atomic.Int64
 		p.Status = func() (optimize.Status, error) {
-			if n.Add(1) >= int64(sc.StatusAt)+1 { // the first call is made by checkOptimization
+			k := n.Add(1)
+			if sc.Abort == "status0" && k == 1 {
+				return optimize.Failure, statusErr
+			}
+			if sc.StatusAt > 0 && k >= int64(sc.StatusAt)+1 { // the first call is made by checkOptimization
 				return optimize.Success, nil
 			}
 			return optimize.NotTerminated, nil
 		}
 	}
 	settings := &optimize.Settings{Concurrent: sc.Concurrent, FuncEvaluations: sc.FLimit, GradEvaluations: sc.GLimit,
-		HessEvaluations: sc.HLimit, MajorIterations: sc.ILimit}
+		HessEvaluations: sc.HLimit, MajorIterations: sc.ILimit, GradientThreshold: sc.GThr}
+	if sc.RL {
+		settings.Runtime = time.Nanosecond
+	}
+	rec := &recorder{failed: "none"}
 	if sc.RecErrAt > 0 {
-		settings.Recorder = &recorder{errAt: sc.RecErrAt + 1} // the first Record is InitIteration
+		rec.errAt = sc.RecErrAt + 1 // the first Record is InitIteration
+		settings.Recorder = rec
+	}
+	switch sc.Abort {
+	case "recinit":
+		rec.initErr = true
+		settings.Recorder = rec
+	case "recfirst":
+		rec.errAt = 1
+		settings.Recorder = rec
 	}
 	if sc.ConvAt > 0 {
 		settings.Converger = &convAt{at: sc.ConvAt}
+	}
+	// the value (and derivatives) of the objective at the start point, evaluated at the start point: what the
+	// caller of Minimize knows and hands in as Settings.InitValues
+	initF := pure.Func(init0)
+	if sc.IV != 0 {
+		iv := &optimize.Location{F: initF}
+		smu.Lock()
+		evaluated[xkey(init0)] = true
+		smu.Unlock()
+		if sc.IV&2 != 0 {
+			iv.Gradient = make([]float64, sc.Dim)
+			pure.Grad(iv.Gradient, init0)
+			smu.Lock()
+			gradAt[xkey(init0)] = xkey(iv.Gradient)
+			smu.Unlock()
+		}
+		if sc.IV&4 != 0 {
+			iv.Hessian = mat.NewSymDense(sc.Dim, nil)
+			pure.Hess(iv.Hessian, init0)
+		}
+		settings.InitValues = iv
 	}
 	base := runtime.NumGoroutine()
 	var res *optimize.Result
 	var err error
 	m := sc.M
-	if m == nil {
+	if m == nil && !sc.DefM {
 		m = sc.Method()
 	}
-	px := &proxy{Method: m, col: col}
+	var px optimize.Method // stays nil when Minimize is to choose the method
+	if !sc.DefM {
+		px = &proxy{Method: m, col: col}
+	}
 	out := core.CallTimeout(20*time.Second, func() {
 		res, err = optimize.Minimize(p, append([]float64(nil), init0...), settings, px)
 	})
@@ -460,7 +541,7 @@ func runScenario(sc scenario, seed int64, sum *core.Summary) *runRec {
 		sum.Fail("minimize:"+strings.Split(sc.Name, "/")[0]+":hang", "Minimize did not return within 20s: "+sc.Name, map[string]any{"scenario": sc.Name})
 		return nil
 	}
-	if out.Panicked {
+	if out.Panicked && sc.Abort != "uses" {
 		sum.Fail("minimize:"+strings.Split(sc.Name, "/")[0]+":panic", sc.Name+": "+out.Text, map[string]any{"scenario": sc.Name})
 		return nil
 	}
@@ -499,7 +580,18 @@ func runScenario(sc scenario, seed int64, sum *core.Summary) *runRec {
 	if seq == 0 {
 		seq = 1
 	}
+	b2i := func(b bool) int {
+		if b {
+			return 1
+		}
+		return 0
+	}
+	abort := sc.Abort
+	if abort == "" {
+		abort = "none"
+	}
 	rr := &runRec{Name: sc.Name, Obj: sc.Obj, Seq: seq, NT: len(wnames), FL: sc.FLimit, GL: sc.GLimit, HL: sc.HLimit, IL: sc.ILimit,
+		DefM: b2i(sc.DefM), HasG: b2i(p.Grad != nil), HasH: b2i(p.Hess != nil), IV: sc.IV, Abort: abort, RL: b2i(sc.RL),
 		Logs: map[string][]outEv{}}
 	conv := func(e rawEv) outEv {
 		o := outEv{"e": e.ev, "op": "none", "tok": 0, "f": 0, "g": 0, "h": 0, "status": "none", "nf": 0, "ni": 0}
@@ -540,15 +632,86 @@ func runScenario(sc scenario, seed int64, sum *core.Summary) *runRec {
 	}
 	// logging-boundary predicates named by the property, computed from values the real code
 	// produced (never recomputed optima): F = f(X) bit for bit, X was evaluated, F <= f(init)
-	b2i := func(b bool) int {
-		if b {
-			return 1
+	// what kind of error Minimize returned (identities of the values involved, no text)
+	errkind := "none"
+	errgradOK := 0
+	var ef optimize.ErrFunc
+	var eg optimize.ErrGrad
+	switch {
+	case err == nil:
+	case errors.Is(err, errRecorder):
+		errkind = "recorder"
+	case errors.Is(err, statusErr):
+		errkind = "probstatus"
+	case errors.As(err, &ef):
+		errkind = "errfunc"
+		// "The error state may be either +Inf or NaN": the value reported is the invalid value of the objective
+		if !(math.Float64bits(float64(ef)) == math.Float64bits(initF) || math.IsNaN(float64(ef)) && math.IsNaN(initF)) {
+			errkind = "errfunc-othervalue"
 		}
-		return 0
+	case errors.As(err, &eg):
+		errkind = "errgrad"
+		// "Index is the position at which the invalid gradient was found", "Grad is the invalid gradient value"
+		g0 := make([]float64, sc.Dim)
+		if pure.Grad != nil {
+			pure.Grad(g0, init0)
+			if eg.Index >= 0 && eg.Index < len(g0) && (math.IsNaN(g0[eg.Index]) || math.IsInf(g0[eg.Index], 0)) &&
+				(math.Float64bits(eg.Grad) == math.Float64bits(g0[eg.Index]) || math.IsNaN(eg.Grad) && math.IsNaN(g0[eg.Index])) {
+				errgradOK = 1
+			}
+		}
+	case errors.Is(err, optimize.ErrLinesearcherFailure), errors.Is(err, optimize.ErrNonDescentDirection),
+		errors.Is(err, optimize.ErrNoProgress), errors.Is(err, optimize.ErrLinesearcherBound):
+		errkind = "linesearch"
+	default:
+		errkind = "other"
+	}
+	// the objective at the start point as the run saw it
+	initf := "ok"
+	if math.IsNaN(initF) {
+		initf = "nan"
+	} else if math.IsInf(initF, 1) {
+		initf = "pinf"
+	}
+	initg := 0
+	if p.Grad != nil && pure.Grad != nil && initf == "ok" {
+		g0 := make([]float64, sc.Dim)
+		pure.Grad(g0, init0)
+		for _, v := range g0 {
+			if math.IsNaN(v) || math.IsInf(v, 0) {
+				initg = 1
+			}
+		}
+	}
+	if res == nil {
+		// Minimize refused the call (error before the run, or the documented panic)
+		rr.Result = map[string]any{
+			"nilres": 1, "panicked": b2i(out.Panicked), "errkind": errkind, "recfail": rec.failed,
+			"nf": 0, "ni": 0, "ng": 0, "nh": 0, "calls": calls.f.Load(), "calls_g": calls.g.Load(), "calls_h": calls.h.Load(),
+			"status": "none", "status_x": "none", "goroutines": leaked, "fx_ok": 0, "x_eval": 0, "noworse": 0, "local": b2i(sc.Local),
+			"finf": 0, "has_grad": 0, "grad_ok": 0, "initf": initf, "initg": initg, "errgrad_ok": errgradOK, "f_neginf": 0, "gthr_ok": 0,
+		}
+		return rr
 	}
 	// "the reported gradient is the gradient at the reported X": the objective wrapper remembered the
 	// gradient it returned for each point of THIS run
 	gradOK := res.Gradient != nil && gradAt[xkey(res.X)] == xkey(res.Gradient)
+	// GradientThreshold: "the infinity norm of the gradient is less than this value" (Settings), the methods'
+	// own GradStopThreshold "is defaulted to 1e-12" (every method here is used with its zero value)
+	gthrOK := 0
+	if res.Gradient != nil {
+		norm := 0.0
+		for _, v := range res.Gradient {
+			norm = math.Max(norm, math.Abs(v))
+		}
+		if norm < math.Max(sc.GThr, 1e-12) {
+			gthrOK = 1
+		}
+	}
+	var statusX string
+	if o := core.Call(func() { statusX = res.Status.String() }); o.Panicked {
+		statusX = "panic"
+	}
 	rr.Result = map[string]any{
 		"nf": res.Stats.FuncEvaluations, "ni": res.Stats.MajorIterations, "calls": calls.f.Load(),
 		"ng": res.Stats.GradEvaluations, "nh": res.Stats.HessEvaluations,
@@ -561,6 +724,9 @@ func runScenario(sc scenario, seed int64, sum *core.Summary) *runRec {
 		"finf":     b2i(math.IsInf(res.F, 1)),
 		"has_grad": b2i(res.Gradient != nil),
 		"grad_ok":  b2i(gradOK),
+		"nilres":   0, "panicked": 0, "errkind": errkind, "recfail": rec.failed, "status_x": statusX,
+		"initf": initf, "initg": initg, "errgrad_ok": errgradOK,
+		"f_neginf": b2i(math.IsInf(res.F, -1)), "gthr_ok": gthrOK,
 	}
 	return rr
 }
@@ -571,6 +737,9 @@ func recordMinimize(out *core.Out, args []string, seed int64, sum *core.Summary)
 	for _, a := range args {
 		if a == "reuse" {
 			return recordReuse(out, args, seed, sum)
+		}
+		if a == "defaults" {
+			return recordDefaults(out, args, seed, sum)
 		}
 		if strings.HasPrefix(a, "nt=") {
 			fmt.Sscan(a[3:], &nt)
